@@ -63,7 +63,11 @@ def generate(prop, rng):
         else:
             kind = gen.weighted(rng, [(4, "check"), (2, "hcheck"), (3, "oids_exist"), (2, "exists"), (3, "checkout"), (2, "verify_add")])
             q = {"op": o, "kind": kind, "objs": rng.sample(labels, rng.randint(1, min(3, len(labels))))}
+            if kind == "checkout" and rng.random() < 0.3:
+                # the store refuses the removal of a rejected object (foreign owner / read-only mount)
+                q["rm_fault"] = rng.choice(["EACCES", "EIO"])
             if kind == "verify_add":
+                q["hardlink"] = rng.random() < 0.35
                 q["corrupt"] = rng.random() < 0.7
                 q["evict_first"] = rng.random() < 0.7  # the objects are not in the store yet: add() really copies
                 q["objs"] = rng.sample(labels, min(len(labels), rng.choice([1, 2, 3, 3])))
@@ -326,16 +330,29 @@ def execute(sc, ctx):
             members = sorted(set(ents.values()))
             anybad = any(tampered(o) or not M[o]["present"] for o in members)
             raised = None
+            rm_fired0 = ctx.seam.fired.get("reject_rm", 0)
+            if op.get("rm_fault"):
+                # every attempt to remove one of the tampered objects fails for the duration of this call
+                ctx.seam.faults = [{"at": ("unlink", "remove"), "match": f"cache/{o[:2]}/{o[2:]}", "nth": 1,
+                                    "exc": op["rm_fault"], "name": "reject_rm", "count": 99}
+                                   for o in members if M[o]["present"] and tampered(o)]
             try:
                 checkout(dest, w.localfs, Tree.load(odb, HashInfo("md5", doid)), odb, force=True, state=state)
             except (CheckoutError, FileNotFoundError, ObjectFormatError) as exc:
                 raised = exc
+            except OSError as exc:
+                if ctx.seam.fired.get("reject_rm", 0) == rm_fired0:
+                    raise
+                raised = exc  # the injected failure surfaced: refusing is fine, materialising wrong bytes is not
+                ctx.probe("checkout_refused_after_failed_removal")
+            finally:
+                ctx.seam.faults = []
             snap = model.files_of(model.snapshot(dest))
             for rel, ci in sc["tree"].items():
                 b = snap.get(rel)
                 if b is not None and b != contents[ci]:
                     ctx.violate("corrupt-bytes-materialised", f"checkout:{cfg['link']}", f"op{n}: {rel} has {len(b)} bytes != object {model.short(foid[ci])}")
-            if not anybad and (raised is not None or any(snap.get(rel) != contents[ci] for rel, ci in sc["tree"].items())):
+            if not anybad and ctx.seam.fired.get("reject_rm", 0) == rm_fired0 and (raised is not None or any(snap.get(rel) != contents[ci] for rel, ci in sc["tree"].items())):
                 ctx.violate("intact-checkout-failed", f"{cfg['link']}", f"op{n}: raised={raised!r}")
             for o in members + [doid]:
                 a = actual(o)
@@ -367,7 +384,7 @@ def execute(sc, ctx):
                 srcs.append(src)
                 pre[o] = M[o]["present"] and M[o]["bytes"] != good[o]
             try:
-                odb.add(srcs, w.localfs, list(objs), verify=True)
+                odb.add(srcs, w.localfs, list(objs), verify=True, hardlink=bool(op.get("hardlink")))
             except Exception as exc:  # noqa: BLE001
                 ctx.violate("verify-add-raised", type(exc).__name__, repr(exc))
             for j, o in enumerate(objs):
